@@ -149,6 +149,15 @@ package expressions
 //@ method Get
 //@ requires recv: is(this, *expressions.context) ==> pl_ptr(this) != 0
 //@ assigns nothing
+//@ method Clone
+//@ requires recv: is(this, *expressions.context) ==> pl_ptr(this) != 0
+//@ assigns alloc F$expressions.context$Config, alloc F$expressions.context$bindings, alloc M$has$Str$Val, alloc M$val$Str$Val
+//@ panics nothing
+//@ ensures copy: result != nil && (is(result, *expressions.context) ==> pl_ptr(result) != 0 && as(result, *expressions.context).bindings != nil)
+//@ method Set
+//@ requires recv: is(this, *expressions.context) ==> pl_ptr(this) != 0 && as(this, *expressions.context).bindings != nil
+//@ assigns M$has$Str$Val, M$val$Str$Val
+//@ panics nothing
 
 // ASSUMPTION (listed in evidence): no registered filter has a parameter of the closure
 // interface type. This is true of every standard filter; AddFilter with such a parameter
@@ -420,6 +429,21 @@ package expressions
 //@ props C01
 //@ panics nothing
 //@ assigns *
+
+// Clone copies the bindings into a new map, so that Set on the copy leaves the source alone.
+//@ func (*expressions.context).Clone
+//@ props C01 C03
+//@ panics nothing
+//@ requires recv: ctx != nil
+//@ assigns alloc F$expressions.context$Config, alloc F$expressions.context$bindings, alloc M$has$Str$Val, alloc M$val$Str$Val
+//@ loop 1 invariant fresh: fresh(bindings) && sameold("M$has$Str$Val") && sameold("M$val$Str$Val")
+//@ ensures copy: result != nil && is(result, *expressions.context) && pl_ptr(result) != 0 && fresh(as(result, *expressions.context)) && fresh(as(result, *expressions.context).bindings)
+
+//@ func (expressions.closure).Bind
+//@ props C01 C03
+//@ panics nothing
+//@ assigns alloc F$expressions.context$Config, alloc F$expressions.context$bindings, M$has$Str$Val, M$val$Str$Val
+//@ ensures bound: result != nil
 
 //@ func (*expressions.context).Set
 //@ props C12 C01
